@@ -70,10 +70,12 @@ type bounder struct {
 	plen  map[*ssa.Parameter]*lin
 	names map[ssa.Value]string
 	n     int
+	intr  []lin           // intrinsic facts about atoms (library contracts), each >= 0
+	used  map[string]bool // library contracts relied on
 }
 
 func newBounder(c *Ctx) *bounder {
-	return &bounder{c: c, lower: map[string]int64{}, upper: map[string]int64{}, names: map[ssa.Value]string{}, plen: map[*ssa.Parameter]*lin{}}
+	return &bounder{c: c, lower: map[string]int64{}, upper: map[string]int64{}, names: map[ssa.Value]string{}, used: map[string]bool{}, plen: map[*ssa.Parameter]*lin{}}
 }
 
 func isUnsigned(t types.Type) bool {
@@ -119,6 +121,24 @@ func (b *bounder) atom(v ssa.Value) string {
 		}
 	case *ssa.Field:
 		n = "field:" + b.c.Expr(x)
+	case *ssa.Call:
+		// (*bytes.Buffer).Len(x): same atom as len(x.Bytes()) while nothing can have touched the buffer in between
+		if calleeName(&x.Call) == "(*bytes.Buffer).Len" {
+			n = b.bufEpoch(x)
+		}
+	}
+	if ex, ok := v.(*ssa.Extract); ok && ex.Index == 0 && n == "" {
+		// n of `n, err := r.Read(p)`: the io.Reader contract gives 0 <= n <= len(p)
+		if call, ok := ex.Tuple.(*ssa.Call); ok && isReaderRead(&call.Call) {
+			b.n++
+			n = fmt.Sprintf("%s#%d", v.Name(), b.n)
+			b.names[v] = n
+			b.lower[n] = 0
+			args := callArgs(&call.Call)
+			b.intr = append(b.intr, b.lenOf(args[len(args)-1]).add(linAtom(n), -1))
+			b.used["S6: io.Reader contract: Read(p) returns 0 <= n <= len(p) (net.Conn, tls.Conn)"] = true
+			return n
+		}
 	}
 	if n == "" {
 		b.n++
@@ -260,6 +280,11 @@ func (b *bounder) lenOf(v ssa.Value) lin {
 	}
 	if at, ok := v.Type().Underlying().(*types.Array); ok {
 		return linConst(at.Len())
+	}
+	if call, ok := v.(*ssa.Call); ok && calleeName(&call.Call) == "(*bytes.Buffer).Bytes" {
+		n := b.bufEpoch(call)
+		b.lower[n] = 0
+		return linAtom(n)
 	}
 	if prm, ok := v.(*ssa.Parameter); ok {
 		if l := b.paramLen(prm); l != nil {
@@ -410,6 +435,51 @@ func (b *bounder) factsAt(blk *ssa.BasicBlock) []lin {
 		}
 	}
 	return out
+}
+
+// bufEpoch names the length of a bytes.Buffer as observed by a Len()/Bytes() call: calls on the same buffer in the same
+// block with no other call between them observe the same length (bytes.Buffer contract: len(b.Bytes()) == b.Len()).
+func (b *bounder) bufEpoch(call *ssa.Call) string {
+	b.used["S7: bytes.Buffer contract: len(b.Bytes()) == b.Len() with no call in between"] = true
+	recv := b.c.Expr(call.Call.Args[0])
+	epoch := 0
+	for _, i := range call.Block().Instrs {
+		if i == ssa.Instruction(call) {
+			break
+		}
+		if cc := callOf(i); cc != nil {
+			switch calleeName(cc) {
+			case "(*bytes.Buffer).Len", "(*bytes.Buffer).Bytes", "builtin.len", "builtin.cap":
+			default:
+				epoch++
+			}
+		}
+	}
+	n := fmt.Sprintf("buflen:%s@%s.b%d.%d", recv, call.Parent().Name(), call.Block().Index, epoch)
+	b.lower[n] = 0
+	return n
+}
+
+// isReaderRead: a call of a method Read([]byte) (int, error).
+func isReaderRead(cc *ssa.CallCommon) bool {
+	var sig *types.Signature
+	name := ""
+	if cc.IsInvoke() {
+		name = cc.Method.Name()
+		sig, _ = cc.Method.Type().(*types.Signature)
+	} else if f := staticCallee(cc); f != nil && f.Signature.Recv() != nil {
+		name = f.Name()
+		sig = f.Signature
+	}
+	if name != "Read" || sig == nil || sig.Params().Len() != 1 || sig.Results().Len() != 2 {
+		return false
+	}
+	sl, ok := sig.Params().At(0).Type().Underlying().(*types.Slice)
+	if !ok {
+		return false
+	}
+	bt, ok := sl.Elem().Underlying().(*types.Basic)
+	return ok && bt.Kind() == types.Uint8 && isIntegerT(sig.Results().At(0).Type())
 }
 
 // lowerOf: a lower bound of a linear expression that follows from atom lower bounds alone.
@@ -575,7 +645,7 @@ func (b *bounder) obligationsOf(i ssa.Instruction) *boundOb {
 
 // check proves an obligation from the facts at its block; returns the first unproven part.
 func (b *bounder) check(ob *boundOb) (bool, string) {
-	facts := b.factsAt(ob.I.Block())
+	facts := append(append([]lin{}, b.intr...), b.factsAt(ob.I.Block())...)
 	for k, g := range ob.Goal {
 		if !b.prove(g, facts) {
 			if alt, ok := ob.Alt[k]; ok && b.prove(alt, facts) {
